@@ -851,3 +851,64 @@ def r15_reflected_angle_stays_half_open(ck, P, rid='C13-R15'):
                 ck.violation(R, fn, 'reflected angle used with its closed end', '%s reflects the normalised angle ([0, K)) into (0, %g] at %s and %s: for a pixel exactly on the ray at angle 0 the parameter is %g, which lies behind the last stop - transparent under REPEAT_NONE (a transparent half row through the centre of every conical gradient whose centre is at a pixel centre)' % (fn, C, x.loc(), 'uses the result without comparing it with %g' % C if not cmps else 'still uses the unadjusted value', C), x.loc())
     if n == 0:
         raise AnalysisBroken('%s: no reflection of a loop-normalised angle found in pixman-conical-gradient.c' % rid)
+
+
+def r16_packed_channels_are_clamped(ck, P, rid='C13-R16'):
+    """T-GRD on a conversion: the 8-bit gradient pixel is assembled from four floats by `(uint32_t) (f + .5) << k & mask`.  The mask keeps
+    one byte, so a value of 255.5 and more does not saturate, it wraps - an opaque stop pair becomes alpha 0.  'The values are already
+    normalized' holds only up to rounding (slope * y + intercept cancels far from two close stops), so each value is clamped to [0, 255]
+    before the conversion."""
+    R = ck.rule(rid, 'in pixman-gradient-walker.c every float that is converted to an integer and shifted / masked into a packed pixel is, on the way to the conversion, the result of a clamp whose upper bound is the constant 255 (a select or merge that can deliver 255.0): the interpolated alpha of a repeating gradient with two close opaque stops, evaluated a few thousand periods away, comes out as 255.5 or more in single precision and would be packed as alpha 0 - a transparent pixel of an opaque gradient, which OVER (simplified to SRC for an opaque source) writes as it is', floor=4)
+    u = P.units.get('pixman-gradient-walker.c')
+    if u is None:
+        raise AnalysisBroken('%s: pixman-gradient-walker.c not compiled' % rid)
+    def fconst(o):
+        if o and o[0] == 'fc':
+            try:
+                return float(o[1])
+            except ValueError:
+                return None
+        return None
+    n = 0
+    for fn, f in sorted(u.functions.items()):
+        for x in f.insts():
+            if x.op not in ('fptoui', 'fptosi'):
+                continue
+            if not any(q.op in ('shl', 'and', 'or', 'lshr') for q in f.users(x)):
+                continue
+            n += 1; ck.saw(f)
+            def clamped(o, d=0, seen=None):
+                seen = set() if seen is None else seen
+                y = f.v(o) if o[0] == 'v' else None
+                if y is None or d > 8 or y.i in seen:
+                    return False
+                seen.add(y.i)
+                if y.op == 'fadd' and any(fconst(a) is not None for a in y.a):
+                    return clamped([a for a in y.a if fconst(a) is None][0], d + 1, seen)
+                if y.op in ('fpext', 'fptrunc'):
+                    return clamped(y.a[0], d + 1, seen)
+                if y.op == 'load':
+                    # a field of the local argb_t: the store that reaches the load (the last of the stores that dominate it)
+                    pa = f.path(y.a[0])
+                    if pa[0][0] != 'alloca':
+                        return False
+                    st = [q for q in f.insts() if q.op == 'store' and f.path(q.a[1]) == pa and f.dominates(q, y)]
+                    if not st:
+                        return False
+                    last = [q for q in st if all(q is r or f.dominates(r, q) for r in st)]
+                    return bool(last) and clamped(last[0].a[0], d + 1, seen)
+                if y.op in ('phi', 'select'):
+                    ops = y.a if y.op == 'phi' else y.a[1:]
+                    if any(fconst(a) == 255.0 for a in ops):
+                        return True
+                    return any(clamped(a, d + 1, seen) for a in ops if a[0] == 'v')
+                if y.op == 'call' and isinstance(y.callee, str) and ('minnum' in y.callee or 'fmin' in y.callee):
+                    return any(fconst(a) == 255.0 for a in y.a)
+                return False
+            where = '%s: conversion at %s' % (fn, x.loc())
+            if clamped(x.a[0]):
+                ck.ok(R, where, 'clamped to 255')
+            else:
+                ck.violation(R, fn, 'unclamped channel packed into a pixel', '%s converts a float to an integer and packs it into one byte of a pixel (%s) without a clamp to 255 on the way: single-precision cancellation in slope * y + intercept lets an opaque interpolation reach 255.5 and more far away from two close stops, and the byte mask wraps it to 0 - transparent pixels in an opaque gradient' % (fn, x.loc()), x.loc())
+    if n == 0:
+        raise AnalysisBroken('%s: no float-to-integer packing found in pixman-gradient-walker.c' % rid)
